@@ -8,4 +8,319 @@ import BitstringModel.Props.C18
 namespace BM.C18
 open BM
 
+
+/-! ### facts about the generated tables, for all prefixes × codes at once -/
+
+def tokenOK (e c : Char) : Bool :=
+  match (replacements e).lookup c, structSpec e c with
+  | some (name, len), some s =>
+    (match mkDtype name len with
+      | .ok d => decide (d = nativeDtype s)
+      | .error _ => false) &&
+    decide (0 < s.size) && decide (len = 8 * s.size) &&
+    decide (s.kind = .float → (s.size = 2 ∨ s.size = 4 ∨ s.size = 8)) &&
+    decide (((structKindSize c).map (·.2)).getD 0 = s.size)
+  | _, _ => false
+
+theorem tokenOK_all : ∀ e ∈ specEndians, ∀ c ∈ specCodes, tokenOK e c = true := by decide
+
+/-- What the code's table gives for a prefix and a code, against the struct documentation. -/
+theorem token_info (e c : Char) (he : e ∈ specEndians) (hc : c ∈ specCodes) :
+    ∃ name len s, (replacements e).lookup c = some (name, len) ∧ structSpec e c = some s ∧
+      mkDtype name len = .ok (nativeDtype s) ∧ 0 < s.size ∧ len = 8 * s.size ∧
+      (s.kind = .float → (s.size = 2 ∨ s.size = 4 ∨ s.size = 8)) ∧
+      ((structKindSize c).map (·.2)).getD 0 = s.size := by
+  have h := tokenOK_all e he c hc
+  unfold tokenOK at h
+  split at h
+  · rename_i name len s h1 h2
+    refine ⟨name, len, s, h1, h2, ?_⟩
+    simp only [Bool.and_eq_true, decide_eq_true_eq] at h
+    obtain ⟨⟨⟨⟨ha, hb⟩, hc'⟩, hd⟩, he'⟩ := h
+    refine ⟨?_, hb, hc', hd, he'⟩
+    split at ha
+    · rename_i d hd'
+      simp only [decide_eq_true_eq] at ha
+      rw [hd', ha]
+    · cases ha
+  · cases h
+
+
+theorem leBytes_one (v : Nat) : leBytes 1 v = [v % 256] := rfl
+
+theorem packInt_one (o : Order) (signed : Bool) (v : Int) :
+    Struct.packInt 1 o signed v = Struct.packInt 1 .big signed v := by
+  cases o <;> simp [Struct.packInt, orderBytes, leBytes_one]
+
+theorem toOption_map_congr {α β} (f : α → β) (a b : Except Err α) (h : a = b) :
+    (a.map f).toOption = (b.map f).toOption := by rw [h]
+
+/-- Building a value with the dtype that denotes a struct layout gives `struct.pack`'s bytes for that item. -/
+theorem build_nativeDtype (s : Spec) (hs : 0 < s.size)
+    (hf : s.kind = .float → (s.size = 2 ∨ s.size = 4 ∨ s.size = 8)) (v : Val) :
+    (build (nativeDtype s) v).toOption = ((Struct.pack1 s v).map bitsOfBytes).toOption := by
+  obtain ⟨k, n, o⟩ := s
+  simp only at hs hf
+  have h0 : 8 * n ≠ 0 := by omega
+  cases k
+  · -- signed
+    cases v with
+    | int i =>
+      by_cases h1 : n = 1
+      · subst h1
+        simp only [nativeDtype, if_true, build, h0, if_false, Struct.pack1]
+        rw [int2bitstore_eq_to_bytes' 1 hs true i, packInt_one o true i]
+      · cases o
+        · simp only [nativeDtype, h1, if_false, if_true, build, h0, Struct.pack1]
+          rw [intle2bitstore_eq_to_bytes' n hs true i]
+        · simp only [nativeDtype, h1, if_false, build, h0, Struct.pack1, reduceCtorEq]
+          rw [int2bitstore_eq_to_bytes' n hs true i]
+    | flt p => by_cases h1 : n = 1 <;> cases o <;> simp [nativeDtype, h1, build, Struct.pack1, Except.map, Except.toOption]
+    | nan => by_cases h1 : n = 1 <;> cases o <;> simp [nativeDtype, h1, build, Struct.pack1, Except.map, Except.toOption]
+  · -- unsigned
+    cases v with
+    | int i =>
+      by_cases h1 : n = 1
+      · subst h1
+        simp only [nativeDtype, if_true, build, h0, if_false, Struct.pack1]
+        rw [int2bitstore_eq_to_bytes' 1 hs false i, packInt_one o false i]
+      · cases o
+        · simp only [nativeDtype, h1, if_false, if_true, build, h0, Struct.pack1]
+          rw [intle2bitstore_eq_to_bytes' n hs false i]
+        · simp only [nativeDtype, h1, if_false, build, h0, Struct.pack1, reduceCtorEq]
+          rw [int2bitstore_eq_to_bytes' n hs false i]
+    | flt p => by_cases h1 : n = 1 <;> cases o <;> simp [nativeDtype, h1, build, Struct.pack1, Except.map, Except.toOption]
+    | nan => by_cases h1 : n = 1 <;> cases o <;> simp [nativeDtype, h1, build, Struct.pack1, Except.map, Except.toOption]
+  · -- float
+    have hl : 8 * n = 16 ∨ 8 * n = 32 ∨ 8 * n = 64 := by have := hf rfl; omega
+    have hd : 8 * n / 8 = n := by omega
+    cases v with
+    | flt p =>
+      cases o <;>
+      · simp only [nativeDtype, build, hl, if_true, Struct.pack1]
+        by_cases hp : p < 2 ^ (8 * n)
+        · simp [hp, float2bitstore, structPackFloat, hd, orderBytes, Except.map, Except.toOption]
+        · simp [hp, Except.map, Except.toOption]
+    | int i => cases o <;> simp [nativeDtype, build, Struct.pack1, Except.map, Except.toOption]
+    | nan => cases o <;> simp [nativeDtype, build, Struct.pack1, Except.map, Except.toOption]
+
+
+theorem pack1_length (s : Spec) (hs : 0 < s.size) (v : Val) (x : List Nat) (h : Struct.pack1 s v = .ok x) :
+    x.length = s.size ∧ ∀ y ∈ x, y < 256 := by
+  obtain ⟨k, n, o⟩ := s
+  have hob : ∀ u, (orderBytes o (leBytes n u)).length = n ∧ ∀ y ∈ orderBytes o (leBytes n u), y < 256 := by
+    intro u
+    cases o
+    · exact ⟨by simp [orderBytes], by simpa [orderBytes] using leBytes_lt n u⟩
+    · exact ⟨by simp [orderBytes], by simpa [orderBytes] using leBytes_lt n u⟩
+  have hint : ∀ sg i, Struct.packInt n o sg i = .ok x → x.length = n ∧ ∀ y ∈ x, y < 256 := by
+    intro sg i hi
+    unfold Struct.packInt at hi
+    cases sg <;> simp only [Bool.false_eq_true, if_false, if_true] at hi <;> split at hi
+    · injection hi with hi; subst hi; exact hob _
+    · cases hi
+    · injection hi with hi; subst hi; exact hob _
+    · cases hi
+  cases k <;> cases v <;> simp only [Struct.pack1] at h
+  · exact hint _ _ h
+  · cases h
+  · cases h
+  · exact hint _ _ h
+  · cases h
+  · cases h
+  · cases h
+  · split at h
+    · injection h with h; subst h; exact hob _
+    · cases h
+  · cases h
+
+theorem valFinite_float (c : Char) (n : Nat) (p : Nat) (hk : structKindSize c = some (.float, n))
+    (h : valFinite c (.flt p) = true) : Struct.isNaN n p = false := by
+  simpa [valFinite, hk] using h
+
+/-- One item: `struct.unpack` of `struct.pack` is the value (finite floats). -/
+theorem unpack1_pack1 (s : Spec) (hs : 0 < s.size) (v : Val) (x : List Nat) (h : Struct.pack1 s v = .ok x)
+    (hfin : s.kind = .float → ∀ p, v = .flt p → Struct.isNaN s.size p = false) :
+    Struct.unpack1 s x = v := by
+  obtain ⟨k, n, o⟩ := s
+  simp only at hs hfin
+  cases k <;> cases v <;> simp only [Struct.pack1] at h <;> try (cases h; done)
+  · simp only [Struct.unpack1]
+    rw [(unpackInt_packInt' n hs o true _ x h).1]
+  · simp only [Struct.unpack1]
+    rw [(unpackInt_packInt' n hs o false _ x h).1]
+  · rename_i p
+    split at h
+    · rename_i hp
+      injection h with h
+      subst h
+      have ov := order_value n p hp
+      have hn := hfin rfl p rfl
+      cases o <;> simp [Struct.unpack1, ov.1, ov.2, hn]
+    · cases h
+
+theorem leValue_singleton (item : List Nat) (h : item.length = 1) : leValue item = beValue item := by
+  match item, h with
+  | [x], _ => simp [beValue]
+
+theorem structUnpackFloat_eq (big : Bool) (n : Nat) (o : Order) (item : List Nat) (hlen : item.length = n)
+    (ho : big = (o == .big)) :
+    structUnpackFloat big item = Struct.unpack1 ⟨.float, n, o⟩ item := by
+  cases o <;> simp_all [structUnpackFloat, Struct.unpack1]
+
+/-- One item: reading with the dtype that denotes a struct layout is `struct.unpack`'s item. -/
+theorem getFn_nativeDtype (s : Spec) (hs : 0 < s.size)
+    (hf : s.kind = .float → (s.size = 2 ∨ s.size = 4 ∨ s.size = 8)) (item : List Nat)
+    (hlen : item.length = s.size) (hlt : ∀ y ∈ item, y < 256) :
+    getFn (nativeDtype s).defn (bitsOfBytes item) = .ok (Struct.unpack1 s item) := by
+  obtain ⟨k, n, o⟩ := s
+  simp only at hs hf hlen
+  have hbl : (bitsOfBytes item).length = 8 * n := by simp [hlen]
+  have h8 : (bitsOfBytes item).length % 8 = 0 := by rw [hbl]; omega
+  have hne : bitsOfBytes item ≠ [] := by
+    intro h; have := congrArg List.length h; rw [hbl] at this; simp at this; omega
+  have h0 : 8 * n ≠ 0 := by omega
+  have htb := toBytes_bitsOfBytes' item hlt
+  have hnat := bitsToNat_bitsOfBytes item hlt
+  cases k
+  · by_cases h1 : n = 1
+    · have hsing := leValue_singleton item (by omega)
+      have hsg := bitsToInt_eq_toSigned (bitsOfBytes item) n hs hbl
+      cases o <;>
+        simp [nativeDtype, h1, getFn, DefName.allows, getint, hbl, Except.map, Struct.unpack1, Struct.unpackInt,
+          hsg, hnat, hsing, hlen]
+    · cases o
+      · simp only [nativeDtype, h1, if_false, if_true, getFn, DefName.allows, hbl, Struct.unpack1]
+        rw [getintle_eq_from_bytes' _ h8 hne, htb]
+        simp [Except.map]
+      · simp only [nativeDtype, h1, if_false, getFn, DefName.allows, hbl, Struct.unpack1, reduceCtorEq]
+        rw [getintbe_eq_from_bytes' _ h8 hne, htb]
+        simp [Except.map]
+  · by_cases h1 : n = 1
+    · have hsing := leValue_singleton item (by omega)
+      cases o <;>
+        simp [nativeDtype, h1, getFn, DefName.allows, getuint, hbl, Except.map, Struct.unpack1, Struct.unpackInt,
+          hnat, hsing]
+    · cases o
+      · simp only [nativeDtype, h1, if_false, if_true, getFn, DefName.allows, hbl, Struct.unpack1]
+        rw [getuintle_eq_from_bytes' _ h8 hne, htb]
+        simp [Except.map, Struct.unpackInt]
+      · simp only [nativeDtype, h1, if_false, getFn, DefName.allows, hbl, Struct.unpack1, reduceCtorEq]
+        rw [getuintbe_eq_from_bytes' _ h8 hne, htb]
+        simp [Except.map, Struct.unpackInt]
+  · have hl : 8 * n = 16 ∨ 8 * n = 32 ∨ 8 * n = 64 := by have := hf rfl; omega
+    cases o
+    · simp only [nativeDtype, getFn, DefName.allows, hbl, getfloat, htb]
+      simp [hl, structUnpackFloat_eq false n .little item hlen rfl]
+    · simp only [nativeDtype, getFn, DefName.allows, hbl, getfloat, htb]
+      simp [hl, structUnpackFloat_eq true n .big item hlen rfl]
+
+
+
+/-- The token `structparser` emits for a code. -/
+def tok (e c : Char) : String × Nat := ((replacements e).lookup c).getD ("", 0)
+
+theorem structparser_eq (e : Char) (he : e ∈ specEndians) (codes : List Char) (hc : ∀ c ∈ codes, c ∈ specCodes) :
+    structparser e codes = .ok (codes.map (tok e)) := by
+  induction codes with
+  | nil => rfl
+  | cons c cs ih =>
+    obtain ⟨name, len, s, h1, _⟩ := token_info e c he (hc c List.mem_cons_self)
+    simp only [structparser, h1, ih (fun x hx => hc x (List.mem_cons_of_mem _ hx)), Except.map, List.map_cons, tok,
+      Option.getD_some]
+
+theorem toOption_ok_iff {α} (a : Except Err α) (x : α) : a.toOption = some x ↔ a = .ok x := by
+  cases a <;> simp [Except.toOption]
+
+theorem toOption_none_iff {α} (a : Except Err α) : a.toOption = none ↔ ∃ e, a = .error e := by
+  cases a <;> simp [Except.toOption]
+
+theorem packTokens_eq (e : Char) (he : e ∈ specEndians) (codes : List Char) (hc : ∀ c ∈ codes, c ∈ specCodes)
+    (vals : List Val) :
+    (packTokens (codes.map (tok e)) vals).toOption = ((Struct.pack e codes vals).map bitsOfBytes).toOption := by
+  induction codes generalizing vals with
+  | nil => cases vals <;> simp [packTokens, Struct.pack, Except.map, Except.toOption, bitsOfBytes]
+  | cons c cs ih =>
+    cases vals with
+    | nil => simp [packTokens, Struct.pack, Except.map, Except.toOption]
+    | cons v vs =>
+      obtain ⟨name, len, s, h1, h2, h3, h4, h5, h6, _⟩ := token_info e c he (hc c List.mem_cons_self)
+      have hb := build_nativeDtype s h4 h6 v
+      have hi := ih (fun x hx => hc x (List.mem_cons_of_mem _ hx)) vs
+      simp only [List.map_cons, tok, h1, Option.getD_some, packTokens, h3, Struct.pack, h2]
+      cases hp : Struct.pack1 s v with
+      | error err =>
+        rw [hp] at hb
+        simp only [Except.map, Except.toOption] at hb
+        obtain ⟨e', he'⟩ := (toOption_none_iff _).mp hb
+        simp [he', Except.map, Except.toOption, bind, Except.bind]
+      | ok x =>
+        rw [hp] at hb
+        simp only [Except.map, Except.toOption] at hb
+        have hb' := (toOption_ok_iff _ _).mp hb
+        rw [hb']
+        cases hr : Struct.pack e cs vs with
+        | error err =>
+          rw [hr] at hi
+          simp only [Except.map, Except.toOption] at hi
+          obtain ⟨e', he'⟩ := (toOption_none_iff _).mp hi
+          simp [he', Except.map, Except.toOption, bind, Except.bind]
+        | ok r =>
+          rw [hr] at hi
+          simp only [Except.map, Except.toOption] at hi
+          have hi' := (toOption_ok_iff _ _).mp hi
+          simp [hi', Except.map, Except.toOption, bind, Except.bind, pure, Except.pure, bitsOfBytes_append]
+
+theorem pack_struct_eq' (e : Char) (he : e ∈ specEndians) (codes : List Char) (hc : ∀ c ∈ codes, c ∈ specCodes)
+    (vals : List Val) :
+    ((structparser e codes).bind (packTokens · vals)).toOption
+      = ((Struct.pack e codes vals).map bitsOfBytes).toOption := by
+  rw [structparser_eq e he codes hc]
+  exact packTokens_eq e he codes hc vals
+
+theorem build_eq_struct' (e c : Char) (he : e ∈ specEndians) (hc : c ∈ specCodes) (v : Val) :
+    ∃ name len d s, (replacements e).lookup c = some (name, len) ∧ mkDtype name len = .ok d ∧
+      structSpec e c = some s ∧ len = 8 * s.size ∧
+      (build d v).toOption = ((Struct.pack1 s v).map bitsOfBytes).toOption := by
+  obtain ⟨name, len, s, h1, h2, h3, h4, h5, h6, _⟩ := token_info e c he hc
+  exact ⟨name, len, nativeDtype s, s, h1, h3, h2, h5, build_nativeDtype s h4 h6 v⟩
+
+theorem pack_fmt_eq' (fmt : String) (e : Char) (codes : List Char) (vals : List Val)
+    (hm : matchStructFmt fmt = some (e, codes)) :
+    pack fmt vals = (structparser e codes).bind (packTokens · vals) := by
+  simp only [pack, hm]
+  cases structparser e codes <;> rfl
+
+
+theorem expandCodes_digits (ds : List Char) (hds : ∀ d ∈ ds, d.isDigit = true) (hne : ds ≠ []) (c : Char)
+    (hc : isCode c = true) (hnd : c.isDigit = false) (cs : List Char) (cnt : Option Nat) :
+    expandCodes (ds ++ c :: cs) cnt =
+      (expandCodes cs none).map
+        (List.replicate (ds.foldl (fun acc d => acc * 10 + (d.toNat - '0'.toNat)) (cnt.getD 0)) c ++ ·) := by
+  induction ds generalizing cnt with
+  | nil => exact absurd rfl hne
+  | cons d ds ih =>
+    have hd : d.isDigit = true := hds d List.mem_cons_self
+    simp only [List.cons_append, expandCodes, hd, if_true, List.foldl_cons]
+    by_cases hnil : ds = []
+    · subst hnil
+      simp only [List.nil_append, expandCodes, hnd, Bool.false_eq_true, if_false, hc, if_true, Option.getD_some,
+        List.foldl_nil]
+      cases expandCodes cs none <;> rfl
+    · rw [ih (fun x hx => hds x (List.mem_cons_of_mem _ hx)) hnil]
+      rfl
+
+theorem expandCodes_count' (ds : List Char) (hds : ∀ d ∈ ds, d.isDigit = true) (hne : ds ≠ []) (c : Char)
+    (hc : isCode c = true) (hnd : c.isDigit = false) (cs : List Char) :
+    expandCodes (ds ++ c :: cs) none =
+      (expandCodes cs none).map
+        (List.replicate (ds.foldl (fun acc d => acc * 10 + (d.toNat - '0'.toNat)) 0) c ++ ·) :=
+  expandCodes_digits ds hds hne c hc hnd cs none
+
+theorem expandCodes_single' (c : Char) (hc : isCode c = true) (hnd : c.isDigit = false) (cs : List Char) :
+    expandCodes (c :: cs) none = (expandCodes cs none).map (c :: ·) := by
+  simp only [expandCodes, hnd, Bool.false_eq_true, if_false, hc, if_true, Option.getD_none]
+  cases expandCodes cs none <;> rfl
+
+
 end BM.C18
